@@ -121,7 +121,9 @@ func nextCloserDeniedWithWork(
 ) (denied bool, secure bool, err error) {
 	for _, rr := range nsecSet {
 		n := rr.(*dns.NSEC)
-		if nsecCovers(n.Header().Name, n.NextDomain, nextCloser) {
+		// The next closer name must be absent, not an empty non-terminal: an
+		// NSEC whose NextDomain lies below it proves that it exists.
+		if nsecCovers(n.Header().Name, n.NextDomain, nextCloser) && !nsecNextBelow(n.NextDomain, nextCloser) {
 			return true, true, nil
 		}
 	}
